@@ -153,6 +153,7 @@ func checkC09(c *Ctx) {
 	c.checkTailArity("C09-ARITY")
 	c.checkTailSelf("C09-SELF")
 	c.checkLastFormKeepsTail("C09-LAST")
+	c.checkArgsReadAtCall("C09-DOT")
 	c.checkSelfNameShadowing("C09-SHADOW")
 	c.checkGeneratorCtors("ES-CTOR")
 	c.checkRegisteredBeforeBody("C09-REG")
